@@ -1,8 +1,12 @@
 #!/usr/bin/env bash
-# One-off offline build of the harness (MANIFEST.setup_cmd). Everything comes from
-# files on disk: the cargo registry cache and /repo.
+# One-off offline build of the harness (MANIFEST.setup_cmd). Everything comes from files on
+# disk: the cargo registry cache and /repo. Also cross-checks the trusted base: the Rust
+# reference model against the Python transcription of the Sage specification.
 set -eu
 cd "$(dirname "$0")"
 export CARGO_NET_OFFLINE=true
 ./check --build-only
-echo "setup: harness built"
+BIN=build/main/target/release/decaf-verif
+[ "${VERIF_REPO:-/repo}" = "/repo" ] || BIN="$(ls -d build/alt-*/target/release/decaf-verif | head -1)"
+"$BIN" spec-vectors | python3 refmodel/spec.py --check
+echo "setup: harness built, reference model agrees with refmodel/spec.py"
